@@ -30,6 +30,8 @@ def run(chk):
     # ---- R1 JSON ---------------------------------------------------------------------------------------------------------
     from .jsonfile import settings_rule
     settings_rule(chk, 'C17.R7')
+    from .jsonfile import envelope_rule
+    envelope_rule(chk, 'C17.R8')        # the streaming envelope of the JSON writers (0..3 boards, a board that cannot be serialised at every position)
     def json_per_expression():
         rec = WriterRecord(repo, 'JsonBoardSettingWriter', 'C17.R1', chk=chk)
         check_writer_schema(chk, 'C17.R1', rec, 'board_setting_format.schema.json', ['properties', 'board_settings', 'items'], schemas)
